@@ -14,6 +14,9 @@ count = 1
 patch = None
 if "--count" in args:
     i = args.index("--count"); count = int(args[i+1]); del args[i:i+2]
+confirm = False
+if "--confirm-replay" in args:
+    confirm = True; args.remove("--confirm-replay")
 if "--patch" in args:
     i = args.index("--patch"); patch = os.path.abspath(args[i+1]); del args[i:i+2]
 props = args[0].split(",")
@@ -44,6 +47,13 @@ try:
         v = [l for l in out.split("\n") if l.startswith(("VIOLATION", "violation detail", "HARNESS", "KNOWN"))]
         print("%s %s rc=%d %.0fs" % ({0: "MISSED", 1: "DETECTED"}.get(r.returncode, "ERROR"), pr, r.returncode, time.time() - t0))
         for l in v[:4]: print("   ", l[:400])
+        if confirm and r.returncode == 1:
+            # the replay interface: every reported replay file must reproduce the violation on the same (patched) tree
+            for l in [l for l in out.split("\n") if l.startswith("VIOLATION")][:2]:
+                path = l.split("replay=", 1)[1].strip()
+                rr = subprocess.run(["/verif/check", pr, "--replay", path], stdout=subprocess.PIPE, stderr=subprocess.STDOUT, text=True, env=env)
+                print("    REPLAY-%s %s rc=%d %s" % ("OK" if rr.returncode == 1 else "MISMATCH", os.path.basename(path), rr.returncode,
+                                                   rr.stdout.strip().split("\n")[-1][:200] if rr.returncode != 1 else ""))
         if r.returncode == 2: print(out[-600:])
         if r.returncode == 0: print("   ", out.strip().split("\n")[-1][:300])
 finally:
